@@ -230,6 +230,14 @@ func (p *Proof) VerifyWithChallenge(pk *gabikeys.PublicKey, reconstructedChallen
 	if (*proof)(p).ProofResult("alpha").Cmp(Parameters.bTwoZk) > 0 {
 		return false
 	}
+	// C_r and C_u serve as bases in the proof relations, so they must be invertible modulo n:
+	// a power of a non-invertible base (e.g. zero) would make those relations hold trivially,
+	// without knowledge of a witness.
+	for _, c := range []*big.Int{p.Cr, p.Cu} {
+		if new(big.Int).ModInverse(c, pk.N) == nil {
+			return false
+		}
+	}
 	acc, err := p.SignedAccumulator.UnmarshalVerify(pk)
 	if err != nil {
 		return false
